@@ -32,12 +32,12 @@ Contents
   `notifications_last_stream`, `resize_last`, and `apply_emits_no_scrollLines` (the
   ScrollLines clause is NOT established in the model: the code calls `ScrollLines` since fix
   715b710, which is checked on the implementation by the harness monitor `scroll-lines`)
-* §6 non-vacuity examples, and an example showing that `InvAlong` cannot be dropped under the
-  span policy with a width-3 character
+* §6 non-vacuity examples, and an example showing that `InvAlong` holds (and the copy is exact)
+  under the span policy with a width-3 character
 
 Which invariant along a run: `shadow_sync_run` takes `Scr.inv` of both buffers in every state
 in which a token is applied as a hypothesis (`InvAlong`); Props/C02 proves it for all reachable
-states (widths ≤ 2 under the span policy). For the grid policy no such hypothesis is needed
+states (both policies, every width function). For the grid policy no such hypothesis is needed
 (`shadow_sync_run_blank`): there only the shape of the grid matters and it is proved here to be
 preserved by every token.
 -/
@@ -212,16 +212,24 @@ theorem putKeep_length (r : Row) (x : Nat) (text : Bytes) (w : Nat) (st : Style)
     (hwf : rowWF r = true) (hc : contAt r x = true) (hw : 1 ≤ w) :
     (Row.putKeep r x text w st).length = r.length := by
   obtain ⟨t, wd, s', hch, _, hx, hlen, hwd⟩ := wf_head hwf (contAt_lt hc)
-  unfold Row.putKeep
+  unfold Row.putKeep cutRow
   simp only []
-  rw [length_fixTail]
   have hl : (if contAt r (x + w) = true then blankCharAt r (x + w) st else r).length = r.length := by
     split
     · exact length_blankCharAt ..
     · rfl
-  simp only [List.length_take, List.length_append, List.length_drop, length_charCells _ _ _ hw,
-    hl, hwd]
-  omega
+  rw [List.length_take]
+  apply Nat.min_eq_left
+  have hk : ∀ p : Row, (if contAt p r.length = true then blankCharAt p r.length st else p).length
+      = p.length := by
+    intro p; split
+    · exact length_blankCharAt ..
+    · rfl
+  rw [hk]
+  simp only [List.length_append, List.length_take, length_charCells _ _ _ hw, hwd]
+  split
+  · simp only [List.length_append, List.length_replicate, List.length_drop]; omega
+  · simp only [List.length_drop, hl]; omega
 
 theorem blankRow_length (w : Nat) (st : Style) : (blankRow w st).length = w := by simp [blankRow]
 
@@ -1329,10 +1337,10 @@ open Lemmas
     About the hypothesis `InvAlong`: it is used only for the span policy's insertion after a wide
     character (`Row.putKeep` keeps the row length only on a well-formed row). For the grid policy
     it is not needed at all (`shadow_sync_run_blank`, closed form). For the span policy it is
-    taken as a hypothesis here; Props/C02 (`apply_wf`, `wf_inv`) proves that every state
-    reachable with a width function bounded by 2 satisfies it, so it holds along every run of a
-    real terminal. It cannot be dropped for arbitrary width functions:
-    `Examples.keep_width3_needs_invAlong_example`. -/
+    taken as a hypothesis here; Props/C02 (`apply_wf`, `wf_inv`) proves that every reachable
+    state satisfies it, for every width function (characters of width 3 and more included), so
+    it holds along every run of a real terminal; an instance with a width-3 character:
+    `Examples.keep_width3_invAlong_example`. -/
 theorem shadow_sync_run (cw : Nat → Nat) (t : Term) (toks : List Tok)
     (hsz : t.main.w = t.alt.w ∧ t.main.h = t.alt.h) (hinv : InvAlong cw t toks)
     (hm : t.main.inv = true) (ha : t.alt.inv = true) :
@@ -1956,19 +1964,25 @@ def width3Input : Bytes :=
   [87, 87, 87, 27, 91, 49, 59, 51, 72, 120, 27, 91, 49, 59, 49, 72, 27, 91, 52, 80, 27, 91, 49, 59,
    54, 72, 87, 27, 91, 49, 59, 53, 72, 27, 91, 49, 88, 27, 91, 49, 59, 56, 72, 120]
 
-/-- **The hypothesis `InvAlong` of `shadow_sync_run` cannot be dropped under the span policy for
-    a width function that returns 3** (doubt about the MODEL already recorded in Props/C02, C03):
-    on a 9 × 1 span-buffer terminal this input leaves a row of 8 cells, which no copy with rows of
-    9 cells equals; accordingly the invariant fails somewhere along the run. Under the grid
-    policy, or with widths ≤ 2, this does not happen. -/
-theorem keep_width3_needs_invAlong_example :
-    shadowAfter cw3 (Term.init .keep 9 1) (Term.init .keep 9 1).scr.grid (toksOf width3Input) ≠
+/-- **With a width-3 character the span policy keeps the invariant along the run** and the
+    shadow copy is exact: on a 9 × 1 span-buffer terminal this input (which made the earlier
+    `Row.putKeep`, right only for kept characters of width 2, leave a row of 8 cells — recorded
+    then as `keep_width3_needs_invAlong_example`) keeps `Scr.inv` in every state of the run, so
+    the hypothesis `InvAlong` of `shadow_sync_run` holds and the copy equals the final screen. -/
+theorem keep_width3_invAlong_example :
+    shadowAfter cw3 (Term.init .keep 9 1) (Term.init .keep 9 1).scr.grid (toksOf width3Input) =
       (run cw3 (Term.init .keep 9 1) width3Input).1.scr.grid ∧
-    ¬ InvAlong cw3 (Term.init .keep 9 1) (toksOf width3Input) := by
-  have h1 : shadowAfter cw3 (Term.init .keep 9 1) (Term.init .keep 9 1).scr.grid
-      (toksOf width3Input) ≠ (run cw3 (Term.init .keep 9 1) width3Input).1.scr.grid := by decide
-  refine ⟨h1, fun hinv => h1 ?_⟩
-  exact shadow_sync_stream cw3 _ width3Input ⟨rfl, rfl⟩ hinv (by decide) (by decide)
+    InvAlong cw3 (Term.init .keep 9 1) (toksOf width3Input) := by
+  have ht : toksOf width3Input =
+      [.text [87] 87, .text [87] 87, .text [87] 87, .csi 0 [1, 3] true 0x48, .text [120] 120,
+       .csi 0 [1, 1] true 0x48, .csi 0 [4] true 0x50, .csi 0 [1, 6] true 0x48, .text [87] 87,
+       .csi 0 [1, 5] true 0x48, .csi 0 [1] true 0x58, .csi 0 [1, 8] true 0x48, .text [120] 120] := by
+    decide
+  have hinv : InvAlong cw3 (Term.init .keep 9 1) (toksOf width3Input) := by
+    rw [ht]
+    simp only [InvAlong]
+    decide
+  exact ⟨shadow_sync_stream cw3 _ width3Input ⟨rfl, rfl⟩ hinv (by decide) (by decide), hinv⟩
 
 end Examples
 
